@@ -50,13 +50,34 @@ CHECKS = {
     "C12": ("flush-point monitor: exact precondition evaluation, prefix-only reference decode, suffix decode after full flush, twin compressors",
             lvl("directed flush histories over segmented inputs that repeat pre-flush data; at every flush call the property's precondition is evaluated and, when true, the bytes emitted so far alone must decode to all input so far, Sync/Full must end aligned with 00 00 FF FF, the remainder after a Full flush must decode on its own, and [NoSync, Sync] must be equivalent to [Sync]."),
             COMMON_NOTE, "DESIGN.md §3 C12"),
+    "C13": ("online checker of a sequential protocol specification over exhaustively enumerated call sequences",
+            lvl("a sequential specification of the inflate() protocol, written from the property statement, is evaluated on every call of all 64^3 (quick) / 64^4 (thorough) action sequences for 12 streams (valid, trailing bytes, truncated, corrupt) plus a legal drain, and on random histories with window-wrapping outputs; what the property leaves open (non-Finish after Finish, empty output slice, what follows a failed Finish) is deliberately not asserted."),
+            COMMON_NOTE + "; the specification itself (harness/src/mon/c13.rs)", "DESIGN.md §3 C13"),
+    "C14": ("online checker of a sequential protocol specification over exhaustively enumerated call sequences + twin compressor",
+            lvl("a sequential specification of the deflate() protocol is evaluated on every call of all 48^3 / 48^4 action sequences for 6 inputs x 3 configurations followed by a Finish drain and a reference decode of the delivered bytes; refused empty-output calls are checked for side effects through the hook and through a twin history without them; random histories cover all 880 configurations and outputs smaller than a flush marker."),
+            COMMON_NOTE + "; the specification itself (harness/src/mon/c14.rs)", "DESIGN.md §3 C14"),
+    "C15": ("bound monitor with guard-page destinations of exactly the advertised size",
+            "Runtime monitoring (release build): mz_compress2 and mz_deflate(MZ_FINISH) write into guard-page buffers of exactly mz_compressBound(n) / mz_deflateBound(n) bytes for n = 0..300 exhaustively, around every block-size threshold up to 4 MiB (16 MiB thorough) and random sizes, over incompressible and adversarial near-incompressible contents, levels -1..10 and all strategies; minimum slack and maximum expansion are reported. Held on the executions observed; not a proof.",
+            COMMON_NOTE, "DESIGN.md §3 C15"),
+    "C16": ("definitional reference monitor: every split point, scalar and simd builds, running checksums after every call",
+            "Runtime monitoring in three builds (scalar, simd, debug-assertions): the four exported update functions are compared with bytewise/bitwise definitional implementations in one pass and under every split point (<= 2048 bytes) or random multi-way splits with checksum-of-a-prefix start values; the running checksums of compressor, zlib decoder and mz_stream are compared after every call of random schedules. Held on the executions observed; not a proof.",
+            COMMON_NOTE, "DESIGN.md §3 C16"),
+    "C17": ("differential + accounting monitor, guard pages, AddressSanitizer, Miri, valgrind memcheck, fork-isolated misuse matrix",
+            "Runtime monitoring under several instruments: every exported C function is driven in lock-step with its Rust counterpart (bytes, status, adler) with exact pointer/avail/total accounting, all caller buffers against PROT_NONE guard pages (native, two build profiles) and again under AddressSanitizer; thorough adds Miri and valgrind memcheck runs of a small workload; a 56-row misuse matrix runs each row in a forked child (crash / unwinding panic attributed to the row). Sanitizer silence is not memory safety; held on the executions observed.",
+            COMMON_NOTE + "; ASan via nightly -Zsanitizer=address; Miri cannot cross into libz so its runs have no secondary oracle", "DESIGN.md §3 C17"),
+    "C18": ("lock-step twin monitor: object after (history, reset) vs freshly constructed object",
+            lvl("after prior histories (ended, abandoned anywhere, failed, error states) an object is reset and driven through a different subsequent stream in lock-step with a fresh object with the same settings, output buffers pre-filled with different garbage; statuses, counts, bytes and exposed checksums must agree call by call for CompressorOxide::reset, mz_deflateReset, InflateState::reset_as(Min/Zero/Full) and reset(), DecompressorOxide::init(), and two fresh compressors must be deterministic."),
+            COMMON_NOTE + "; one known finding (MinReset keeps the previous window) is listed in known_findings.json", "DESIGN.md §3 C18"),
+    "C19": ("snapshot-substitution monitor: decoder replaced by clone / rmp-serde / serde_json copy between every two calls; block-boundary record checker",
+            "Runtime monitoring (miniz_oxide built with serde + block-boundary, two profiles): under 6 schedules in flat and ring mode the decoder object is replaced between every two calls by a clone, an rmp-serde round trip or a serde_json round trip of itself and must reproduce the uninterrupted per-call results; stop-at-block-boundary must report exactly one stop per non-final block of the reference trace with the documented bit fields, and a decoder rebuilt from the boundary record plus the preceding 32 KiB must finish identically. Held on the executions observed; not a proof.",
+            COMMON_NOTE, "DESIGN.md §3 C19"),
 }
 
 NOT_APPLICABLE = {
     "C20": "static property of the program text / compiler verdict per feature set (forbid(unsafe_code), no_std build, auto-traits): no execution can refute it, and the task fixes the technique to runtime monitoring (DESIGN.md §C20)",
 }
 
-PENDING_REASON = "check not built yet in this session (planned in DESIGN.md §3); not claimed until its monitor runs"
+PENDING_REASON = "not claimed"
 
 
 def main():
